@@ -102,7 +102,7 @@ let () =
             | _ -> verdict_string toks (loracle lops (List.map parse_obs outs)) in
           Mlutil.print_model (List.map tok m) verdict
         end
-    | "scan", [n; _; k] ->
+    | "scan", (n :: _ :: k :: _) ->
         (* model: the scanner is in RScan (n-k) when the context is cancelled; count its steps until it has left
            the per-mailbox loop — each such step visits one mailbox *)
         let n_i = int_of_string n and k_i = int_of_string k in
